@@ -9,6 +9,7 @@ import (
 	"errors"
 	"fmt"
 	"io"
+	stdmime "mime"
 	stdos "os"
 	"path/filepath"
 	"strings"
@@ -33,12 +34,12 @@ type Op struct {
 	Limit    uint32          `json:"limit,omitempty"`
 	Ext      *model.Ext      `json:"ext,omitempty"`
 	Name     string          `json:"name,omitempty"`
-	Slot     int             `json:"slot,omitempty"`   // 1+slot: detect/lookup publish into it, use reads it
-	Shared   int             `json:"shared,omitempty"` // 1+index of a shared input buffer
-	Arr      int             `json:"arr,omitempty"`    // readarr: array index
-	Wrap     string          `json:"wrap,omitempty"`   // reader: "", wt, seek, len, rat, bufio, osfile (stream based); bytes, strings, buffer, section, osfile-real (standard types, no fault)
-	Early    bool            `json:"early,omitempty"`  // the result is handed to the slot before the producer calls any accessor on it
-	Reuse    bool            `json:"reuse,omitempty"`  // detect: the caller reuses one buffer (same address) for successive inputs
+	Slot     int             `json:"slot,omitempty"`      // 1+slot: detect/lookup publish into it, use reads it
+	Shared   int             `json:"shared,omitempty"`    // 1+index of a shared input buffer
+	Arr      int             `json:"arr,omitempty"`       // readarr: array index
+	Wrap     string          `json:"wrap,omitempty"`      // reader: "", wt, seek, len, rat, bufio, osfile (stream based); bytes, strings, buffer, section, osfile-real (standard types, no fault)
+	Early    bool            `json:"early,omitempty"`     // the result is handed to the slot before the producer calls any accessor on it
+	Reuse    bool            `json:"reuse,omitempty"`     // detect: the caller reuses one buffer (same address) for successive inputs
 	StatSize int             `json:"stat_size,omitempty"` // file / osfile: Stat reports StatSize-1 bytes (0: the accurate size)
 	NameExt  string          `json:"name_ext,omitempty"`  // file: the path ends in this extension (a name says nothing about the content)
 }
@@ -663,6 +664,17 @@ func (w *World) exec(t *core.Task, ti, oi int) {
 		t.OpInvoke(oi, tag)
 		mimetype.SetLimit(op.Limit)
 		t.OpReturn(oi)
+	case "ambient":
+		// a change of process-wide state that is none of the library's business (real, not simulated)
+		kind, arg, _ := strings.Cut(op.Name, ":")
+		switch kind {
+		case "mime":
+			ext, typ, _ := strings.Cut(arg, "|")
+			_ = stdmime.AddExtensionType(ext, typ)
+		case "env":
+			k, v, _ := strings.Cut(arg, "=")
+			_ = stdos.Setenv(k, v)
+		}
 	case "extend":
 		t.OpInvoke(oi, tag)
 		ok := w.register(op.Ext, res)
